@@ -259,6 +259,30 @@ pub fn repeat_op(c: &Collector, prop: &str, engine: &str, base: &Base, op: &Op, 
     local.flush(c);
 }
 
+/// A cycle of operations repeated `n` times from one base state, every step judged against the
+/// model (housekeeping that runs every k-th call, counters that wrap, growth that is never pruned).
+pub fn repeat_cycle(c: &Collector, prop: &str, engine: &str, base: &Base, cycle: &[Op], n: usize) {
+    let mut s = base.screen.clone();
+    let mut script = base.script.clone();
+    let mut local = Local::default();
+    'outer: for _ in 0..n {
+        for op in cycle {
+            let pre = crate::snapshot::snap(&s);
+            let outcome = crate::explore::run_op(&s, op);
+            local.transitions += 1;
+            local.count("repeated_steps");
+            let t = Trans { columns: base.columns, lines: base.lines, script: &script, pre: &pre, pre_screen: &s, op, outcome: &outcome };
+            let ok = refine_all(c, prop, engine, &t, &mut local);
+            match outcome {
+                Ok((s2, _, _)) if ok => s = s2,
+                _ => break 'outer,
+            }
+            script.push(op.clone());
+        }
+    }
+    local.flush(c);
+}
+
 /// Histories WITHOUT state merging (a tree): redundant internal state (a cached flag mirroring
 /// a mode, a memoised table) that one path forgets to update is invisible to the state key, so
 /// merging would hide it. `ops`: the operations that maintain / consult the state in question
@@ -1015,9 +1039,47 @@ pub fn c06(c: &Collector, g: &mut Guard) {
         ],
         if c.thorough() { 6 } else { 5 },
     );
+    // long runs of scrolls (housekeeping every k-th scroll, wrapping counters): 300 rounds of each
+    // cycle on a 3x4 screen whose rows outside and inside the region hold text, coloured blanks and
+    // attribute-only blanks; every step is judged
+    for region in [None, Some((2u32, 3u32)), Some((1, 3))] {
+        let mut script = vec![
+            Op::Draw("ab".into()),
+            Op::Cup(Some(2), Some(1)),
+            Op::Sgr(vec![44]),
+            Op::Draw("  ".into()),
+            Op::Cup(Some(3), Some(1)),
+            Op::El(Some(2)),
+            Op::Cup(Some(4), Some(1)),
+            Op::Sgr(vec![0, 7]),
+            Op::Draw(" z".into()),
+            Op::Sgr(vec![0, 41]),
+        ];
+        if let Some((t, b)) = region {
+            script.push(Op::SetMargins(Some(t), Some(b)));
+        }
+        let (top, bottom) = region.unwrap_or((1, 4));
+        if let Ok(scr) = crate::ops::build(3, 4, &script) {
+            let base = Base { columns: 3, lines: 4, script: script.clone(), screen: scr };
+            let cycles: Vec<Vec<Op>> = vec![
+                vec![Op::Cup(Some(bottom), Some(1)), Op::Index],
+                vec![Op::Cup(Some(top), Some(1)), Op::ReverseIndex],
+                vec![Op::Cup(Some(bottom), Some(1)), Op::Linefeed, Op::Cup(Some(top), Some(2)), Op::ReverseIndex],
+                vec![Op::Cup(Some(bottom), Some(1)), Op::Sgr(vec![44]), Op::Draw(" ".into()), Op::Sgr(vec![0]), Op::Index],
+                vec![Op::Cup(Some(bottom), Some(3)), Op::Draw("wx".into())],
+                vec![Op::Cup(Some(top), Some(1)), Op::Il(Some(1)), Op::Sgr(vec![42]), Op::El(Some(2)), Op::Dl(Some(1))],
+                vec![Op::Cup(Some(bottom), Some(1)), Op::Feed(vec!["\x1b[43m \n".into()], true), Op::Feed(vec!["\x1bM\x1bD".into()], true)],
+            ];
+            for cy in &cycles {
+                repeat_cycle(c, "C06", "E2.long-scroll", &base, cy, 300);
+            }
+        }
+    }
+    c.bound("long_scroll_rounds", json!(300));
     c.bound("geometries", json!(gs));
     c.bound("bfs_depth", json!(depth));
     g.need(c, "tree_judged");
+    g.need(c, "repeated_steps");
     g.need(c, "then_grow");
     g.need(c, "large_geometry_transitions");
     g.need(c, "model_scrolled");
